@@ -1132,9 +1132,14 @@ func installLineReader(m *Machine, next func(st *State) (string, bool)) {
 	take := func(st *State) (string, bool) {
 		if havePending {
 			havePending = false
+			oracleProgress++
 			return pending, true
 		}
-		return next(st)
+		l, ok := next(st)
+		if ok {
+			oracleProgress++
+		}
+		return l, ok
 	}
 	if m.ExtGlobals == nil {
 		m.ExtGlobals = map[string]Val{}
